@@ -3,6 +3,7 @@
     `key_by(fst).window(CountWindow::new(size, slide, exact)).fold(vec![], push)`:
     the scripted input and every element the chain returned from `next()`. *)
 From Noir Require Import Base.Elem Model.WinCount Model.WindowOp Proofs.WinCountSpec Corr.Canon.
+From Coq Require Import NArith.
 Open Scope Z_scope.
 
 Record case := {
@@ -63,5 +64,5 @@ Definition prop_ok (c : case) : bool :=
   && (* control elements forwarded unchanged, in order *)
   list_eqb (elem_eqb (fun _ _ => true)) (controls (c_out c)) (controls (c_in c)).
 
-Definition corr_failing (cs : list case) := failing corr_ok cs.
-Definition prop_violating (cs : list case) := failing prop_ok cs.
+Definition known_class (c : case) : N := 0%N.
+Definition report (cs : list case) := classify corr_ok prop_ok known_class cs.
